@@ -54,6 +54,9 @@ ALPHABET = {
     "file-on-empty-disk": [("write", "d3", "first", 100, 0)],
     "zerofile-on-empty-disk": [("write", "d3", "z", 0, 0)],
     "rm-emptydir": [("rmdir", "d2", "emptyd")],
+    # a file put back from a copy: same name, size and time-stamp, new inode; its hard link made again (scanned after it)
+    "restore-same-stamp": [("cp", "d1", "a", "d1", ".restore-tmp"), ("rm", "d1", "a"), ("rm", "d1", "hl"),
+                           ("mv", "d1", ".restore-tmp", "d1", "a"), ("hardlink", "d1", "hl", "a")],
 }
 QUICK_NAMES = list(ALPHABET)
 
@@ -208,6 +211,16 @@ def pre_sync_oracle(L, where, role_ambiguous=False):
     rec_files, rec_links = norm(rec_files, rec_links)
     # files recorded with an invalid nsec compare on seconds
     differ = rec_files != gt_files or rec_links != gt_links or has_unsynced(c)
+    if "--test-fake-uuid" in L.extra_opts or L.cfg.uuid:
+        # persistent inodes (first two disks): a recorded file now living under another inode number was put back ("restored")
+        for dn in L.cfg.disknames[:2]:
+            d = c.disks.get(dn.encode())
+            for f in (d.files if d else ()):
+                try:
+                    if os.lstat(L.p(dn, f.sub.decode(errors="surrogateescape"))).st_ino != f.inode:
+                        differ = True
+                except OSError:
+                    pass
     r = L.run("diff")
     want = 2 if differ else 0
     if role_ambiguous and not differ and r.rc == 2 and any(k[0] == "hardlink" for k in raw_links.values()):
